@@ -66,9 +66,11 @@ def statuses(doc):
 
 
 class Listener:
-    def __init__(self, c, r, s, flags):
+    def __init__(self, c, r, s, flags, verbosity=None):
         self.c = c
         argv_, cwd_ = r.cmdline("log", "tail", *flags)
+        if verbosity:
+            argv_ = argv_[:1] + [verbosity] + argv_[1:]   # global flag: the listener's own diagnostics
         self.p = c.spawn("tail", argv_, cwd_, s.env())
         ok = c.wait(lambda: port_listening(r.log_port) or self.p.done(), 10)
         if not ok or self.p.done():
@@ -313,8 +315,10 @@ def parse_tail(out):
             hdrs.append(ln)
         elif cur is not None:
             cur[3] += ln + b"\n"
-        else:
+        elif hdrs:
             junk.append(ln)
+        # (what a listener prints before its stream header - e.g. its own diagnostics with -v - is not
+        # covered by the statement)
     return hdrs, blocks, junk
 
 
@@ -335,7 +339,7 @@ def c20_run(desc):
                 flags += ["-t"] + desc["targets"]
             if desc["commands"]:
                 flags += ["-c"] + desc["commands"]
-            lis = Listener(c, r, s, flags)
+            lis = Listener(c, r, s, flags, desc.get("verbosity"))
             hold = desc.get("hold")
             mid_held = []
             overlap = []
@@ -509,6 +513,9 @@ def c20_scenarios(tier):
     # listener and run invoked as -f <abs config> from an unrelated directory
     for s_, t, c in [(["--stdout", "--stderr"], [], []), (["--stdout"], ["a"], ["build"])]:
         out.append({"streams": s_, "targets": t, "commands": c, "short": True, "foreign": True})
+    # a listener that also prints its own diagnostics (-v, -vv, -vvv)
+    for vb in ("-v", "-vv", "-vvv"):
+        out.append({"streams": ["--stdout", "--stderr"], "targets": [], "commands": [], "short": True, "verbosity": vb})
     # filter values given twice
     out.append({"streams": ["--stdout", "--stderr"], "targets": ["a", "a"], "commands": ["build", "build"], "short": True})
     out.append({"streams": ["--stderr"], "targets": [B20, "a", B20], "commands": [], "short": True})
